@@ -1,4 +1,4 @@
-import Proofs.Machine.CommitBlocksHH
+import Proofs.Machine.CommitBlocks
 /-!
 Examples for `Proofs/Machine/CommitBlocks.lean` (C14, `one_file_header_per_section_log`): concrete `git log -p`
 streams, their well-formedness by `decide`, the rows the theorem predicts, and the model's run agreeing with them
@@ -96,25 +96,5 @@ theorem commit_regex_match_alone_is_not_enough :
     (match run { commitStyle := { isRaw := true } } [{ mkL "diff --git a/x b/x" with commitRe := true }] with
      | .ok m => shown (m.out.filter (fun (r : Row) => r.kind == RowKind.file))
      | .error _ => []) = [("x", 1)] := by decide
-
-/-- the run's hunk-header rows against `hhRowsOfLog` -/
-def agreesHH (cfg : Cfg) (pre : List Sec2) (commits : List Commit) : Bool :=
-  match run cfg (linesOfLog pre commits) with
-  | .ok m => m.out.filter (fun (r : Row) => pHH r.kind) == hhRowsOfLog cfg pre commits
-  | .error _ => false
-
-def sTwoHunks : Sec2 := .file {
-  d := mkL "diff --git a/src/x.rs b/src/x.rs", noise := [mkL "index 1111111..2222222 100644"],
-  body := .named (mkL "--- a/src/x.rs") (mkL "+++ b/src/x.rs") none
-    (["@@ -1,2 +1,2 @@ fn f()", " ctx", "-old", "+new", "@@ -10 +90 @@ fn g()", "-a", "+b", "@@ -20 +100 @@ dangling"].map mkL) }
-/-- a section that ends in an `@@` line no hunk line follows (dropped at the next commit line), then a commit, … -/
-def logHH : List Commit := [{ c1 with secs := [sTwoHunks] }, c2, { c3 with secs := [sModified, sEmptyNew] }]
-def cfgFile : Cfg := { hhFile := true, hunkLabel := "§".toList }
-
-theorem logHH_wf : ∀ k ∈ logHH, k.WF := commits_wf_of_all (by decide)
-theorem logHH_rows : shown (hhRowsOfLog cfgFile [] logHH) =
-    [("§ src/x.rs:1: fn f()", 12), ("§ src/x.rs:90: fn g()", 16), ("§ y:1: ", 42)] := by decide
-theorem logHH_run : agreesHH cfgFile [] logHH = true ∧ agreesHH { commitStyle := { isRaw := true } } [sTwoHunks] logHH = true := by
-  decide +kernel
 
 end Machine.CommitBlocksEx
